@@ -296,3 +296,22 @@ pub fn has_empty_node(n: &Node) -> bool {
         Node::NonTerm { children, .. } => children.is_empty() || children.iter().any(has_empty_node),
     }
 }
+
+/// First pair of differing interior-node spans of two trees of identical shape.
+pub fn first_span_diff(a: &Node, b: &Node) -> Option<(crate::dynp::Span, crate::dynp::Span)> {
+    match (a, b) {
+        (Node::NonTerm { span: s1, children: c1, .. }, Node::NonTerm { span: s2, children: c2, .. }) => {
+            for (x, y) in c1.iter().zip(c2.iter()) {
+                if let Some(d) = first_span_diff(x, y) {
+                    return Some(d);
+                }
+            }
+            if s1 != s2 {
+                Some((*s1, *s2))
+            } else {
+                None
+            }
+        }
+        _ => None,
+    }
+}
